@@ -32,6 +32,20 @@ def install_range_summary(data, mode):
     data.get_days_in_year_range = summary_range(mode)
 
 
+def install_weeks_summary(data, mode):
+    """L1 contract: get_weeks_in_year replaced by the oracle's closed form,
+    evaluated on the proxies without forking (C03's week_start obligation
+    discharges `get_weeks_in_year(y) == weeks_in_year(y)` for every year)"""
+    from symx.core import MOps
+    data.get_weeks_in_year = lambda year: R.weeks_in_year(MOps, mode, year)
+
+
+def uninstall_weeks_summary(data):
+    def get_weeks_in_year(year):
+        return data._get_weeks_in_year(year, data.CALENDAR.mode)
+    data.get_weeks_in_year = get_weeks_in_year
+
+
 def uninstall_range_summary(data):
     def get_days_in_year_range(start_year, end_year):
         return data._get_days_in_year_range(start_year, end_year, data.CALENDAR.mode)
